@@ -234,7 +234,9 @@ def check(repo: Repo, R) -> None:
                     f"{cls}.{dunder} " + ("is defined" + (" and always raises" if must_raise else "") if ok else "is MISSING" if m is None else "does not always raise"),
                     why=f"{'attribute deletion' if dunder == '__delattr__' else 'sub-classing' if dunder == '__init_subclass__' else dunder} is accepted on a {cls} while the sibling class rejects it")
         ga = ci.methods["__getattr__"]
-        ns_first = bool(pat.find("ns = self.__getattribute__('namespace')", ga.node)) and any(isinstance(n, ast.If) and ast.unparse(n.test) == "key in ns" and isinstance(n.body[-1], ast.Return) and ast.unparse(n.body[-1].value) == "ns[key]" for n in au.walk_no_nested(ga.node))
+        NS_ = "self.__getattribute__('namespace')"
+        ns_first = any(isinstance(n, ast.If) and isinstance(n.test, ast.Compare) and len(n.test.ops) == 1 and isinstance(n.test.ops[0], ast.In) and ast.unparse(n.test.left) == "key"
+                       and shared.prov_text(ga.node, n.test.comparators[0]) == NS_ and isinstance(n.body[-1], ast.Return) and shared.prov_text(ga.node, n.body[-1].value) == f"{NS_}[key]" for n in au.walk_no_nested(ga.node))
         g = ci.methods["get"]
         grets = shared.returns_of(g.node)
         get_ns = len(grets) == 1 and shared.prov_text(g.node, grets[0].value) == "self.__getattribute__('namespace').get(name)"
